@@ -27,7 +27,7 @@ def budget(tier):
 
 @st.composite
 def _case(draw):
-    c = draw(zoo.transform_case({"regimes": ["fresh", "fresh", "small", "moderate", "nonuniform", "zero"], "umnn": draw(st.integers(0, 9)) == 0}))
+    c = draw(zoo.transform_case({"regimes": ["fresh", "fresh", "small", "moderate", "nonuniform", "flatbin", "zero"], "umnn": draw(st.integers(0, 9)) == 0}))
     c["inp"] = {"n": draw(st.integers(2, 6)), "seed": draw(st.integers(0, 10 ** 6)), "special": draw(st.sampled_from([0.0, 0.3, 0.6]))}
     c["precise"] = draw(st.booleans())
     c["target"] = draw(st.sampled_from(["forward", "forward", "inverse", "log_prob", "noise"]))
